@@ -46,37 +46,40 @@ Lemma check_op_sound cfg wf st o ob :
   check_op cfg wf st o ob = 0 -> step_holds cfg wf st o ob.
 Proof.
   unfold check_op, step_holds. intro H.
-  destruct (match o with OAttempt id => check_attempt cfg st id ob | _ => 0 end =? 0) eqn:E;
-    cbn [negb] in H.
+  destruct (match o with
+            | OAttempt id | OCheck id => check_attempt cfg st id ob
+            | _ => 0
+            end =? 0) eqn:E; cbn [negb] in H.
   - split.
-    + intros id ->. apply check_attempt_sound. apply Z.eqb_eq in E. exact E.
+    + intros id [-> | ->]; apply check_attempt_sound; apply Z.eqb_eq in E; exact E.
     + apply check_dump_sound. exact H.
   - apply Z.eqb_neq in E. congruence.
 Qed.
 
 (* the Prop decided by [check] over a whole observed history *)
-Fixpoint holds (cfg : config) (wf : bool) (st : state) (prev : list (Z * (vec * vec)))
+Fixpoint holds (cfg : config) (wf : bool) (st : state) (sn : snap) (prev : list (Z * (vec * vec)))
          (ops : list op) (os : list obs) : Prop :=
   match ops, os with
   | [], [] => True
   | o :: ops', ob :: os' =>
     let st1 := sync_state st prev in
-    let wf' := wf && op_okb st1 o in
-    step_holds cfg wf' st1 o ob /\ holds cfg wf' (fst (step cfg st1 o)) (o_dump ob) ops' os'
+    let wf' := wf && op_okb st1 sn o in
+    step_holds cfg wf' st1 o ob
+    /\ holds cfg wf' (fst (step cfg st1 o)) (track cfg st1 sn o) (o_dump ob) ops' os'
   | _, _ => False
   end.
 
-Theorem check_sound cfg : forall ops os wf st prev,
-  check cfg wf st prev ops os = 0 -> holds cfg wf st prev ops os.
+Theorem check_sound cfg : forall ops os wf st sn prev,
+  check cfg wf st sn prev ops os = 0 -> holds cfg wf st sn prev ops os.
 Proof.
-  induction ops as [|o t IH]; intros [|ob os'] wf st prev; cbn [check holds]; try discriminate; auto.
+  induction ops as [|o t IH]; intros [|ob os'] wf st sn prev; cbn [check holds]; try discriminate; auto.
   intro H.
-  destruct (check_op cfg (wf && op_okb (sync_state st prev) o) (sync_state st prev) o ob =? 0) eqn:E;
+  destruct (check_op cfg (wf && op_okb (sync_state st prev) sn o) (sync_state st prev) o ob =? 0) eqn:E;
     cbn [negb] in H.
   - apply Z.eqb_eq in E. split; [apply check_op_sound; exact E|apply IH; exact H].
   - apply Z.eqb_neq in E. congruence.
 Qed.
 
 Theorem prop_code_sound cfg ops os :
-  prop_code cfg ops os = 0 -> holds cfg true init_state [] ops os.
+  prop_code cfg ops os = 0 -> holds cfg true init_state None [] ops os.
 Proof. apply check_sound. Qed.
